@@ -170,9 +170,9 @@ func short(s string) string {
 
 func fsDeadline(heavy bool) time.Duration {
 	if heavy {
-		return 40 * time.Second
+		return 60 * time.Second
 	}
-	return 10 * time.Second
+	return 20 * time.Second
 }
 
 // runCalls makes every call in a goroutine of its own; a call that has not returned at the deadline is reported as hung
